@@ -34,7 +34,7 @@ BOUNDS = {
                  'lazy_states': ['plain', 'lazy', 'consumed', 'copied'], 'policies': ['fuse_to_matrix', 'fuse_contracted', 'no_fusion'],
                  'dtypes': ['real', 'complex'], 'covering_strength': 3, 'contracted_axes': '0..3'},
 }
-OPTS = {'quick': {'max_paths': 400, 'query_timeout_ms': 60000}, 'thorough': {'max_paths': 2000, 'query_timeout_ms': 120000}}
+OPTS = {'quick': {'max_paths': 4000, 'query_timeout_ms': 60000}, 'thorough': {'max_paths': 20000, 'query_timeout_ms': 120000}}
 
 LAZY = ['plain', 'lazy', 'consumed', 'copied']
 POLICIES = ['fuse_to_matrix', 'fuse_contracted', 'no_fusion']
@@ -45,7 +45,7 @@ KINDS = ['add', 'scalar', 'conj', 'transpose', 'tensordot', 'tensordot_diag', 'v
 def cases(tier, seed):
     out = []
     strength = 2 if tier == 'quick' else 3
-    reps = {'quick': 1, 'thorough': 2}[tier]
+    reps = {'quick': 3, 'thorough': 4}[tier]
     for kind in KINDS:
         factors = {'sym': list(cat.SYMS), 'dtype': ['real', 'complex'], 'lazy_a': LAZY, 'drop': ['none', 'some']}
         if kind in ('add', 'tensordot', 'vdot', 'ncon', 'tensordot_diag', 'broadcast', 'mask'):
@@ -890,7 +890,7 @@ def k_elementwise(ctx, rng, spec, cfg):
     if spec.get('dtype') == 'complex':
         ctx.skip('element-wise real functions only')
     v = spec['variant']
-    a, ta = _operand(ctx, rng, spec, 'a', rank, cfg, dims=(1, 2), max_size=12)
+    a, ta = _operand(ctx, rng, spec, 'a', rank, cfg, dims=(1, 2), max_size=6 if v.endswith('cut') or v in ('reciprocal', 'rsqrt') else 12)
     a = lazy(rng, a, spec['lazy_a'])
     if v in ('sqrt', 'rsqrt'):
         for x in (a._data if ctx.mode == 'sym' else []):
